@@ -183,6 +183,21 @@ def case_multi(W, cfg):
                     expect_refusal=(z_chunked and op != "cumsum"))
         compare(W, "multi:%s:X-only" % op, lambda x, op=op: getattr(grid, op)(x, "X", to="left"), (da,), (lz,))
 
+    # a grid ufunc with two core axes, padded along one of them only
+    def upwind_and_sum(x):
+        d = x[..., 1:, :] - x[..., :-1, :]
+        return np.cumsum(d, axis=-1) if not hasattr(d, "dask") else d.cumsum(axis=-1)
+
+    def ufunc2(x, **kw):
+        return grid.apply_as_grid_ufunc(upwind_and_sum, x, axis=[("X", "Z")], signature="(X:center,Z:center)->(X:left,Z:center)",
+                                        boundary_width={"X": (1, 0)}, **kw)
+
+    for ct in compositions(2):
+        lz2 = dasked(da, {"t": ct, "xc": cfg["cx"], "zc": [2]})
+        if len(cfg["cx"]) == 1:
+            compare(W, "multi:ufunc-2-core-dims:parallelized", lambda x: ufunc2(x, dask=("parallelized" if hasattr(x.data, "dask") else "forbidden")), (da,), (lz2,))
+        compare(W, "multi:ufunc-2-core-dims:map_overlap", lambda x: ufunc2(x, dask=("allowed" if hasattr(x.data, "dask") else "forbidden"), map_overlap=hasattr(x.data, "dask")), (da,), (lz2,))
+
 
 def case_metric(W, cfg):
     import xgcm
@@ -261,7 +276,7 @@ def case_3d(W, cfg):
     da = xr.DataArray(a, dims=["t", "yc", "xc"], name="nm")
     for ct in compositions(2):
         lz = dasked(da, {"t": ct, "yc": cfg["cy"], "xc": cfg["cx"]})
-        for op in ("diff", "interp", "max", "cumsum"):
+        for op in ("diff", "interp", "cumsum"):
             compare(W, "3d:%s:XY" % op, lambda x, op=op: getattr(grid, op)(x, ["X", "Y"], to="left"), (da,), (lz,))
             compare(W, "3d:%s:fill" % op, lambda x, op=op: getattr(grid, op)(x, "Y", to="left", boundary="fill", fill_value=2.5), (da,), (lz,))
 
